@@ -198,7 +198,8 @@ def fixedEmoji (env : Env) (cfg : Cfg) (parts : Parts) (typed : Str) : List Rank
     match env.emoticon typed with
     | some e => [Rank.emoji e Gen.emojiDefaultRank]
     | none =>
-      match env.emojiBengali parts.word with
+      -- the ZWNJs inserted for traditional joining are not part of the name
+      match env.emojiBengali (parts.word.filter (fun c => c != cZWNJ)) with
       | some es => (es.zipIdx 1).map (fun (x, r) => Rank.emoji (wrapText parts.pre parts.trail x) r)
       | none => []
 
